@@ -1529,7 +1529,15 @@ def pretty_dict(d, ctx, trailing_comment=None):
     if is_native_type:
         return doc
 
-    if not parts:
+    if not pairs:
+        # An empty instance prints as Constructor(); a trailing comment
+        # goes inside the call, it must not turn that into Constructor({}).
+        if trailing_comment:
+            return build_fncall(
+                ctx,
+                general_identifier(constructor),
+                trailing_comment=trailing_comment
+            )
         return pretty_call_alt(ctx, constructor)
 
     return build_fncall(
